@@ -158,11 +158,22 @@ Definition fpow (x y : f64) : option f64 :=
         let sr := s && Z.odd k in
         let pm := Zpos m ^ Z.abs k in
         let pe := e * Z.abs k in
-        if 0 <? k then Some (fnorm (if sr then - pm else pm) pe sr)
-        else match pm with
-             | Zpos p => Some (fdiv (S754_finite sr 1 0) (S754_finite false p pe))
-             | _ => None
-             end
+        (* libm's pow is not guaranteed to be correctly rounded: the result is modelled only
+           when it is exact (or overflows), which every implementation returns exactly *)
+        let r := if 0 <? k then fnorm (if sr then - pm else pm) pe sr
+                 else match pm with
+                      | Zpos p => fdiv (S754_finite sr 1 0) (S754_finite false p pe)
+                      | _ => S754_nan
+                      end in
+        match r with
+        | S754_infinity _ => Some r
+        | S754_finite _ m' e' =>
+          let exact_eq (m1 e1 m2 e2 : Z) :=
+            let e0 := Z.min e1 e2 in (m1 * 2 ^ (e1 - e0) =? m2 * 2 ^ (e2 - e0)) in
+          if (if 0 <? k then exact_eq (Zpos m') e' pm pe else exact_eq (Zpos m' * pm) (e' + pe) 1 0)
+          then Some r else None
+        | _ => None
+        end
       | S754_zero s =>
         if 0 <? k then Some (S754_zero (s && Z.odd k)) else Some (S754_infinity (s && Z.odd k))
       | S754_infinity s =>
